@@ -20,7 +20,8 @@ EXTENDS Naturals, FiniteSets, TLC
 
 CONSTANTS Sizes,      \* subset of {"empty", "tiny", "Lm1", "L", "Lp1", "big"}
           Contents,   \* content classes
-          LimitSrcs,  \* subset of {"explicit", "env", "envbig"}
+          LimitSrcs,  \* subset of {"explicit", "env", "envbig", "zero", "envfrac"}: zero = explicit limit 0, envfrac = the
+                      \* environment variable holds a fraction below 1 (truncated to 0): only the empty file is not above
           Roles,      \* subset of {"input", "output"}
           PathBys,    \* subset of {"position", "keyword"}
           Cassettes,  \* cassette types
@@ -34,7 +35,8 @@ CONSTANTS Sizes,      \* subset of {"empty", "tiny", "Lm1", "L", "Lp1", "big"}
 VARIABLES cfg, phase, recorded, wasRead, restored, restoredAt
 vars == <<cfg, phase, recorded, wasRead, restored, restoredAt>>
 
-Above(size) == size \in {"Lp1", "big"}
+\* with a limit of zero every non-empty file is above the limit
+Above(size) == IF cfg.limitSrc \in {"zero", "envfrac"} THEN size # "empty" ELSE size \in {"Lp1", "big"}
 \* the placeholder-length file only exists as the "tiny" size
 ContentOK(size, content) == (content = "placeholderText") <=> (size = "tiny")
 
@@ -42,6 +44,7 @@ Init == /\ \E s \in Sizes, c \in Contents, l \in LimitSrcs, r \in Roles, p \in P
               /\ ContentOK(s, c)
               /\ (s = "empty" => c = "emptyBytes") /\ (c = "emptyBytes" => s = "empty")
               /\ (r = "output" => rp = "same" /\ pre = "absent")
+              /\ (l \in {"zero", "envfrac"} => s \in {"empty", "tiny", "Lp1", "big"})
               /\ (tw => pre = "absent" /\ rp = "same" /\ p = "position" /\ s \notin {"empty", "big"} /\ c \in {"binary", "placeholderText"})
               /\ cfg = [size |-> s, content |-> c, limitSrc |-> l, role |-> r, pathBy |-> p, cassette |-> k, replayPath |-> rp,
                         pre |-> pre, twice |-> tw]
